@@ -92,6 +92,10 @@ type Gen struct {
 	touch []touched
 	nameN int
 	tag   string
+	// Exclude hides rows from the generator (it never targets or refers to them).
+	Exclude func(table, uuid string) bool
+	// UUIDWhereOnly restricts where clauses to "_uuid == x" of a visible row.
+	UUIDWhereOnly bool
 }
 
 func NewGen(sch *Schema, seed uint64, st DBState, prof Profile, tag string) *Gen {
@@ -109,6 +113,9 @@ func (g *Gen) uuidFor(label string) string {
 func (g *Gen) rowsOf(table string) []string {
 	us := make([]string, 0, len(g.st[table]))
 	for u := range g.st[table] {
+		if g.Exclude != nil && g.Exclude(table, u) {
+			continue
+		}
 		us = append(us, u)
 	}
 	sort.Strings(us)
@@ -251,6 +258,12 @@ func (g *Gen) where(t *Table) []any {
 		if len(mine) > 0 {
 			return g.whereUUID(mine[g.pick(len(mine))].uuid)
 		}
+	}
+	if g.UUIDWhereOnly {
+		if len(us) == 0 {
+			return g.whereUUID("00000000-0000-4000-8000-00000000dead")
+		}
+		return g.whereUUID(us[g.pick(len(us))])
 	}
 	if g.prof.SimpleWhere {
 		switch r := g.pick(100); {
